@@ -526,6 +526,19 @@ inline GraphSpec gen_large_distinct(Rng &r, int lo = 65, int hi = 110) {
     return g;
 }
 
+// medium-size random graphs (40-70 vertices, average degree 5-10, cycle-space dimension 60-250) under the ordinary weight schemes:
+// still cheap for the Horton + Gauss oracle, with many phases whose support has 4 <= |S| < n signed edges - slips in the
+// hidden-edge bookkeeping of the signed variant that 6-12 vertex graphs show once in 10^4 show here once in ~50
+inline GraphSpec gen_wide_mid(Rng &r, bool int_only = false, int lo = 40, int hi = 70) {
+    GraphSpec g; int n = (int) r.range(lo, hi); Topo t;
+    double deg = 5 + r.real() * 5; topo_er(r, t, n, std::min(1.0, deg / n)); dedup(t);
+    g.n = n; for (auto &e : t) g.edges.push_back({e.first, e.second, 1});
+    r.shuffle(g.edges);
+    GenOpts o; o.tie_bias = 0.45; o.int_only = int_only; assign_weights(r, g, o, false);
+    g.family = "er_dense_mid_size";
+    return g;
+}
+
 
 // every property about graphs quantifies over SIMPLE graphs with positive weights: a generator that leaves that domain is a
 // harness failure (exit 2), never a verdict about parmcb
